@@ -10,6 +10,7 @@ import Gts.Lemmas.ParseInv
 import Gts.Lemmas.ParseSim
 import Gts.Lemmas.ParseK3Guard
 import Gts.Lemmas.ParseGuardEx
+import Gts.Lemmas.ParseCoords
 namespace Gts.C06
 open Gts Loc Pars
 
@@ -271,8 +272,9 @@ What IS proved (`parse_result_canon_partial` below), and what differs from the s
   * the hypothesis is on the MODEL's parser (`parseLocation s = .ok (l, r)`), not on the copy: that the copy and
     the model agree on outcome, location, rest and stack for EVERY guard is a theorem (`parse_flag_ghost`, from
     `LocParseG.sim_all`: a lock-step induction over the five mutual fuelled parsers and the `more` loop);
-  * the coordinate hypothesis is on the RESULT (`coordsC coordOk l`), not on the text: the leaf parsers' bounds from
-    the text (`-5` is accepted as the point `-6`) are still missing — item (3) of the old list.
+  * the coordinate hypothesis is on the RESULT (`coordsC coordOk l`), not on the text (`-5` is accepted as the point
+    `-6`); it IS derived from a text-level hypothesis in `parse_result_coords_partial` below (section "the coordinate
+    clause from the TEXT": `Pars.IntsIn s`, stronger than "every number of the text is in 1 .. 2^62").
 The structural clauses need no coordinate hypothesis at all: `parse_result_struct`.  The guard cannot be dropped
 (`parse_result_guard_needed`: `join(4,3^4,4)` is accepted, flagged, and its result `join(4,4)` is not canonical).
 NOT proved: an unconditional shape theorem (`parse_result_shape`: "every accepted text yields a `joined` with at least
@@ -342,6 +344,63 @@ example : parseLocation (str "join(4,5)") = .ok (joined [point 3, point 4], []) 
   refine ⟨?_, ?_, by decide⟩
   · rw [parse_flag_ghost canonGuard, ht, hG]; rfl
   · rw [parseGuard, ht, hG]
+
+/-! ### the coordinate clause from the TEXT
+
+FULL STATEMENT (not proved in this form):
+
+    theorem parse_result_coords (s : Pars.Bytes) (l : Loc) (r : Pars.Bytes) (hp : parseLocation s = .ok (l, r))
+        (hi : intsOk s = true)   -- Bool: every maximal digit run of s, read as a number, is in 1 .. 2^62 and is not
+                                 -- preceded by `-`  (so `join(10,20)` meets it)
+        : coordsC coordOk l = true
+
+What IS proved (`parse_result_coords_partial`): the same conclusion from the text-level hypothesis `Pars.IntsIn s`
+(Gts/Lemmas/ParseCoords.lean) = "at EVERY byte position of `s`, a successful run of `pars.Int` from that position
+yields a value in `1 .. 2^62`".  It is a predicate on the text only (no parser state, no result), but
+  * it is a `Prop` quantified over positions and saved-position stacks, not a `Bool` (decidable in principle: the
+    result of `Pars.int` does not depend on the stack — not proved);
+  * it is STRONGER than `intsOk`: it also constrains positions INSIDE a digit run, where the parser never starts an
+    integer, and `pars.Int` answers `0` on a `0` — so a text that contains the digit `0` anywhere (`10`, `join(4,20)`)
+    does not meet it (`Gts.intsIn_zero_false`).  Restricting the hypothesis to the positions where the parser does
+    start an integer needs a postcondition logic with preconditions on the state ("the byte just consumed is not a
+    digit"); `PostI` only carries an invariant that every primitive keeps from every state.
+How: `Pars.PostI p Q` — `Post` with the state invariant "the position and every saved position are texts that meet
+`IntsIn`", kept on success and on failure (`attempt` goes on from the failed state); every primitive of the model keeps
+it (`IntsIn` is closed under `drop`), `pars.Int` returns a value in range from such a state, the leaf parsers build
+`v`, `v - 1` from these values, and `Join` / `Order` / `Complement()` only re-use coordinates (`join_leaves`,
+`order_leaves`); the same fuel induction as `LocParseG.post_all` (`LocParse.posti_all`), on the MODEL's parser. -/
+
+/-- **The coordinates of a parser result are in range, from the text** (partial, see the section comment): for every
+byte string `s`, if the model parser accepts `s` with result `l`, and at every byte position of `s` a successful run of
+`pars.Int` from that position yields a value between 1 and 2^62, then every coordinate of `l` (every `between`,
+`point`, `ranged` and `ambiguous` leaf at any depth) lies in `0 .. 2^62`. -/
+theorem parse_result_coords_partial (s : Pars.Bytes) (l : Loc) (r : Pars.Bytes)
+    (hp : parseLocation s = .ok (l, r)) (hi : Pars.IntsIn s) : coordsC coordOk l = true :=
+  parseLocation_coords s l r hp hi
+
+/-- **Parser results are canonical, hypotheses on the text and the evaluation-level guard only**: an accepted text
+that meets `IntsIn` and whose guard is false has a canonical result, and printing the result is a fixed point of
+parse-then-print.  (`parse_result_canon_partial` with its coordinate hypothesis discharged from the text.) -/
+theorem parse_result_canon_text_partial (s : Pars.Bytes) (l : Loc) (r : Pars.Bytes)
+    (hp : parseLocation s = .ok (l, r)) (hg : parseGuard s = false) (hi : Pars.IntsIn s) :
+    canonP l = true ∧ parseLocation (printB l) = .ok (l, []) := by
+  have hc := parse_result_coords_partial s l r hp hi
+  exact ⟨parse_result_canon_partial s l r hp hg hc, accepted_unflagged_fixed_point s l r hp hg hc⟩
+
+/-- non-vacuity: the text `4..7` is accepted (result `4..7` = `Ranged{3, 7}`), its guard is false and it meets the
+text-level hypothesis; the hypothesis is not trivially true (the text `0` does not meet it) -/
+example : parseLocation (str "4..7") = .ok (ranged 3 7 false false, []) ∧ parseGuard (str "4..7") = false ∧
+    Pars.IntsIn (str "4..7") ∧ ¬ Pars.IntsIn (str "0") := by
+  have ht : str "4..7" = [52, 46, 46, 55] := by decide +kernel
+  have h0 : str "0" = [48] := by decide +kernel
+  have hG : parseLocationG canonGuard [52, 46, 46, 55] = .ok (ranged 3 7 false false, false, []) := by
+    simp only [parseLocationG, P.run', ExceptT.run, StateT.run, List.length_cons, List.length_nil]
+    rw [geval_range47]
+  refine ⟨?_, ?_, ?_, ?_⟩
+  · rw [parse_flag_ghost canonGuard, ht, hG]; rfl
+  · rw [parseGuard, ht, hG]
+  · rw [ht]; exact intsIn_range47
+  · rw [h0]; exact Gts.intsIn_zero_false
 
 /-- **the guard is needed, and it is raised where it has to be**: the text `join(4,3^4,4)` is accepted with the
 result `join(4,4)`, whose coordinates are in range and which is NOT canonical — so `parse_result_canon_partial`
